@@ -50,12 +50,23 @@ def gatherAll (p : Pattern) (data : Array Rat) : List Call → Array (Option Nat
       | none => none
       | some r => some (m.flatten :: r)
 
-def bandedAll (rows : Nat) (offs : List Nat) : List Call → ScatterSt Rat → Except String (ScatterSt Rat)
-  | [], st => .ok st
+def bandedAll (rows cols : Nat) (offs : List Nat) : List Call → ScatterSt Rat → Option (ScatterSt Rat)
+  | [], st => some st
   | c :: t, st =>
-    match bandedScatterAxpy rows offs st c.loc c.rows c.cols c.alpha with
-    | .error e => .error e
-    | .ok st' => bandedAll rows offs t st'
+    match bandedScatterAxpy rows cols offs st c.loc c.rows c.cols c.alpha with
+    | none => none
+    | some st' => bandedAll rows cols offs t st'
+
+def bandedGatherAll (rows cols : Nat) (offs : List Nat) (data : Array Rat) :
+    List Call → Array (Option Nat) → Option (List (List Rat))
+  | [], _ => some []
+  | c :: t, cp =>
+    match bandedGatherAxpy rows cols offs data cp c.loc c.rows c.cols c.alpha with
+    | none => none
+    | some (cp', m) =>
+      match bandedGatherAll rows cols offs data t cp' with
+      | none => none
+      | some r => some (m.flatten :: r)
 
 def showLocs (l : List (List Rat)) : String :=
   " ".intercalate (s!"L {l.length}" :: l.map showRatsL)
@@ -91,9 +102,14 @@ def handle : P String := do
     pure (showLocs (calls.map fun c => vecGatherAxpy vals.toArray c.locVec c.rows c.alpha))
   | "banded" =>
     let r ← nat; let c ← nat; let offs ← natList; let vals ← ratList; let calls ← listOf callP
-    match bandedAll r offs calls ⟨Array.replicate c none, vals.toArray⟩ with
-    | .error e => pure e
-    | .ok st => pure s!"V {showRatsL st.data.toList}"
+    match bandedAll r c offs calls ⟨Array.replicate c none, vals.toArray⟩ with
+    | none => pure "UNINIT"
+    | some st => pure s!"V {showRatsL st.data.toList}"
+  | "bgather" =>
+    let r ← nat; let c ← nat; let offs ← natList; let vals ← ratList; let calls ← listOf callP
+    match bandedGatherAll r c offs vals.toArray calls (Array.replicate c none) with
+    | none => pure "UNINIT"
+    | some l => pure (showLocs l)
   | "asm" =>
     -- synthetic assembly: arbitrary DOF tables, arbitrary local matrices, arbitrary cell order
     let kind ← nat; let nT ← nat; let nS ← nat; let nc ← nat
